@@ -5,6 +5,7 @@ Installed from outside by replacing module globals of ebpfcat.bpf that the
 library resolves at call time: bpf, addrof, addressof, c_char.
 """
 import ctypes
+import errno
 
 from . import use_repo
 use_repo()
@@ -19,8 +20,15 @@ MAP_CMDS = {1: "LOOKUP", 2: "UPDATE", 3: "DELETE", 4: "GET_NEXT_KEY",
             21: "LOOKUP_AND_DELETE"}
 
 
+class Refused(OSError):
+    pass
+
+
 class Monitor:
+    current = None      # the monitor installed last (for error paths)
+
     def __init__(self, sess):
+        self.refused = 0
         self.sess = sess
         self.sizes = {}       # address -> (size, kind)
         self.calls = []       # dicts
@@ -62,7 +70,15 @@ class Monitor:
 
     def bpf(self, cmd, fmt, *args):
         if cmd in MAP_CMDS:
+            before = len(self.violations)
             self.check(cmd, args)
+            if len(self.violations) > before and cmd in (1, 4, 21):
+                # the kernel would WRITE beyond the Python buffer: the call
+                # is recorded and refused, so that the monitored process
+                # survives to report it
+                self.refused += 1
+                raise Refused(errno.EFAULT, "vf monitor: call refused, the "
+                              "kernel would write beyond the buffer")
         return _orig["bpf"](cmd, fmt, *args)
 
     # the rule ------------------------------------------------------------
@@ -113,6 +129,7 @@ class Monitor:
 
     # install -------------------------------------------------------------
     def __enter__(self):
+        Monitor.current = self
         _bpf.bpf = self.bpf
         _bpf.addrof = self.addrof
         _bpf.addressof = self.addressof
